@@ -407,6 +407,20 @@ func c13Levels(tier string) []core.Level {
 			}
 		}},
 	}
+	lv = append(lv, core.Level{Name: "position sweep: every boundary character at every offset 0..272 of a 280-character string of 1-byte, 2-byte and escape-expanding filler; runs of 1..300 copies of every boundary character (block-wise fast paths and fixed-size buffers have position-dependent behaviour)", Gen: func(emit func(core.Case)) {
+		for _, fill := range []string{"x", "é", " "} {
+			for _, c := range c13Boundary {
+				for p := 0; p <= 272; p++ {
+					emit(core.Case{Fam: "str", Src: strings.Repeat(fill, p) + c + strings.Repeat(fill, 279-p)})
+				}
+			}
+		}
+		for _, c := range c13Boundary {
+			for n := 4; n <= 300; n++ {
+				emit(core.Case{Fam: "str", Src: strings.Repeat(c, n)})
+			}
+		}
+	}})
 	lv = append(lv, core.Level{Name: "re-escaping: every escaper on every escaper's output of every boundary character, alone and embedded in text (a 'do not double-encode' shortcut is lossy)", Gen: func(emit func(core.Case)) {
 		for _, e2 := range escapers {
 			for _, x := range c13Boundary {
@@ -584,7 +598,7 @@ func init() {
 	core.Register(&core.Check{
 		ID:       "C13",
 		Category: "exploration",
-		Rule: "all five escapers on every Unicode scalar value as a one-character string (complete: 1 112 064), every invalid byte / truncated sequence (alphabet only), " +
+		Rule: "all five escapers on every Unicode scalar value as a one-character string (complete: 1 112 064), every invalid byte / truncated sequence (alphabet only), every boundary character at every offset of a 280-character string (3 fillers) and in runs of up to 300, " +
 			"every pair over a 29-character boundary alphabet and every triple over a 10-character sub-alphabet (thorough: all boundary triples, 4- and 5-tuples), and every escaper applied to every escaper's own output vocabulary (entities, \\u / \\X / %XX sequences) alone and embedded in text; " +
 			"oracles: output alphabet of the context, decode(escape(s)) == s with a decoder of the target context written from its specification, and escape(xy) == escape(x)+escape(y); " +
 			"every case is distinct and non-trivial (each exercises all five escapers)",
